@@ -6,7 +6,10 @@
 // ShellOperator.initValidatingWebhookManager (verif export) installs the real event handler
 // on the real admission.WebhookManager (its Start() stops at the missing server certificate,
 // so no listener is opened); AdmissionReviews are posted to the manager's real chi router
-// through net/http/httptest.
+// through net/http/httptest.  The operator's ObjectPatcher works on a fake cluster and the
+// hook stub also fills $KUBERNETES_PATCH_PATH, $METRICS_PATH and $CONVERSION_RESPONSE_PATH: every
+// step of a HookRun task that follows the exit of the hook process (parse the files, apply the
+// Kubernetes operations, send the metrics, save the response) can be made to fail.
 package c14
 
 import (
@@ -24,8 +27,13 @@ import (
 
 	"github.com/deckhouse/deckhouse/pkg/log"
 	admv1 "k8s.io/api/admission/v1"
+	metav1 "k8s.io/apimachinery/pkg/apis/meta/v1"
+	"k8s.io/apimachinery/pkg/apis/meta/v1/unstructured"
 
+	"github.com/flant/kube-client/fake"
 	"github.com/flant/shell-operator/pkg/hook"
+	objectpatch "github.com/flant/shell-operator/pkg/kube/object_patch"
+	kubeeventsmanager "github.com/flant/shell-operator/pkg/kube_events_manager"
 	metricstorage "github.com/flant/shell-operator/pkg/metric_storage"
 	shell_operator "github.com/flant/shell-operator/pkg/shell-operator"
 	"github.com/flant/shell-operator/pkg/webhook/admission"
@@ -52,6 +60,10 @@ type Req struct {
 	Msg      int    `json:"msg,omitempty"`
 	Warn     []int  `json:"warn,omitempty"`
 	Patch    int    `json:"patch,omitempty"`
+	// the other files the hook hands back ("" = left empty): names of kVariants / mVariants / cVariants
+	KPatch  string `json:"kpatch,omitempty"`
+	Metrics string `json:"metrics,omitempty"`
+	Conv    string `json:"conv,omitempty"`
 }
 
 type Input struct {
@@ -87,6 +99,10 @@ type ReqObs struct {
 	Review *Review `json:"review,omitempty"`
 	Ran    *Ran    `json:"ran,omitempty"`
 	Note   string  `json:"note,omitempty"`
+	// side effects seen after the exchange: the marker object of this request exists in the
+	// cluster / the marker metric of this request is in the hooks' metric storage
+	KApplied bool `json:"k_applied,omitempty"`
+	MApplied bool `json:"m_applied,omitempty"`
 }
 type Obs struct {
 	Regs []Reg    `json:"regs"`
@@ -105,6 +121,9 @@ if [ "$1" = "--config" ]; then cat "$S/$H.config"; exit 0; fi
 cp "$BINDING_CONTEXT_PATH" "$S/ctx"
 echo "$H" >> "$S/who"
 [ -f "$S/resp" ] && cp "$S/resp" "$VALIDATING_RESPONSE_PATH"
+[ -f "$S/kpatch" ] && cp "$S/kpatch" "$KUBERNETES_PATCH_PATH"
+[ -f "$S/metrics" ] && cp "$S/metrics" "$METRICS_PATH"
+[ -f "$S/conv" ] && cp "$S/conv" "$CONVERSION_RESPONSE_PATH"
 e=1
 [ -f "$S/exit" ] && read e < "$S/exit"
 exit $e
@@ -211,6 +230,129 @@ func coqFile(q Req) string {
 		return resp(false, q.Msg, q.Warn, q.Patch, true)
 	}
 	return "FMalformed"
+}
+
+// ---------------------------------------------------------------- the other files of a hook run
+
+// A variant of one of the files shell-operator processes after the hook process has ended.
+// Coq is the abstract content (C14_Model.kfile / mfile / cfile); the text may depend on the
+// position i of the request in the case (marker names).
+type sideVariant struct {
+	Name string
+	Text func(i int) string
+	Coq  string
+	Bad  bool // processing this file fails the run
+}
+
+const presentCM = "c14-present" // a ConfigMap that exists in namespace default before the first request
+
+func markerCM(i int) string     { return fmt.Sprintf("c14-k-%d", i) }
+func markerMetric(i int) string { return fmt.Sprintf("c14_marker_%d", i) }
+
+func kMarkJSON(i int) string {
+	return fmt.Sprintf(`{"operation":"CreateOrUpdate","object":{"apiVersion":"v1","kind":"ConfigMap","metadata":{"name":"%s","namespace":"default"},"data":{"k":"v"}}}`, markerCM(i))
+}
+func kMarkYAML(i int) string {
+	return fmt.Sprintf("operation: CreateIfNotExists\nobject:\n  apiVersion: v1\n  kind: ConfigMap\n  metadata:\n    name: %s\n    namespace: default\n  data:\n    k: v\n", markerCM(i))
+}
+
+const kMergePresent = `{"operation":"MergePatch","apiVersion":"v1","kind":"ConfigMap","namespace":"default","name":"c14-present","mergePatch":{"data":{"seen":"yes"}}}`
+const kMergeMissing = `{"operation":"MergePatch","apiVersion":"v1","kind":"ConfigMap","namespace":"default","name":"c14-no-such-object","mergePatch":{"data":{"seen":"yes"}}}`
+const kMergeMissingYAML = "operation: MergePatch\napiVersion: v1\nkind: ConfigMap\nnamespace: default\nname: c14-no-such-object\nmergePatch:\n  data:\n    seen: \"yes\"\n"
+
+func fixed(s string) func(int) string { return func(int) string { return s } }
+
+var kVariants = []sideVariant{
+	// every document valid, the API server accepts all of them
+	{"kok-merge", fixed(kMergePresent), "KOps false false", false},
+	{"kok-ignoremissing", fixed(`{"operation":"MergePatch","apiVersion":"v1","kind":"ConfigMap","namespace":"default","name":"c14-no-such-object","mergePatch":{"data":{"seen":"yes"}},"ignoreMissingObject":true}`), "KOps false false", false},
+	{"kok-createifnotexists", fixed(`{"operation":"CreateIfNotExists","object":{"apiVersion":"v1","kind":"ConfigMap","metadata":{"name":"c14-present","namespace":"default"}}}`), "KOps false false", false},
+	{"kok-deletemissing", fixed(`{"operation":"Delete","apiVersion":"v1","kind":"ConfigMap","namespace":"default","name":"c14-no-such-object"}`), "KOps false false", false},
+	{"kmark", kMarkJSON, "KOps true false", false},
+	{"kmark-yaml", kMarkYAML, "KOps true false", false},
+	{"kmark+merge", func(i int) string { return kMarkJSON(i) + "\n" + kMergePresent + "\n" }, "KOps true false", false},
+	// every document valid, the API server rejects one (every operation is executed all the same)
+	{"krej-merge-missing", fixed(kMergeMissing), "KOps false true", true},
+	{"krej-merge-missing-yaml", fixed(kMergeMissingYAML), "KOps false true", true},
+	{"krej-create-exists", fixed(`{"operation":"Create","object":{"apiVersion":"v1","kind":"ConfigMap","metadata":{"name":"c14-present","namespace":"default"}}}`), "KOps false true", true},
+	{"krej-jsonpatch-missing", fixed(`{"operation":"JSONPatch","apiVersion":"v1","kind":"ConfigMap","namespace":"default","name":"c14-no-such-object","jsonPatch":[{"op":"add","path":"/data/x","value":"1"}]}`), "KOps false true", true},
+	{"kmark+rej", func(i int) string { return kMarkJSON(i) + "\n" + kMergeMissing + "\n" }, "KOps true true", true},
+	{"krej+mark", func(i int) string { return kMergeMissing + "\n" + kMarkJSON(i) + "\n" }, "KOps true true", true},
+	// ParseOperations fails: nothing is applied
+	{"kbad-garbage", fixed("}{ ][ this is neither JSON nor YAML: ["), "KUnparsable", true},
+	{"kbad-unknown-op", fixed(`{"operation":"Frobnicate","kind":"ConfigMap","name":"x"}`), "KUnparsable", true},
+	{"kbad-delete-noname", fixed(`{"operation":"Delete","apiVersion":"v1","kind":"ConfigMap","namespace":"default"}`), "KUnparsable", true},
+	{"kbad-merge-nopatch", fixed(`{"operation":"MergePatch","apiVersion":"v1","kind":"ConfigMap","namespace":"default","name":"c14-present"}`), "KUnparsable", true},
+	{"kbad-mark+invalid", func(i int) string { return kMarkJSON(i) + "\n" + `{"operation":"Create"}` + "\n" }, "KUnparsable", true},
+	{"kbad-truncated", func(i int) string { s := kMarkJSON(i); return s[:len(s)-2] }, "KUnparsable", true},
+}
+
+func mMark(i int) string {
+	return fmt.Sprintf(`{"name":"%s","action":"add","value":1}`, markerMetric(i))
+}
+
+var mVariants = []sideVariant{
+	{"mok-gauge", fixed(`{"name":"c14_gauge","set":3}`), "MOps false false", false},
+	{"mok-two", fixed(`{"name":"c14_counter","add":1,"labels":{"kind":"a"}}` + "\n" + `{"name":"c14_gauge","action":"set","value":2}` + "\n"), "MOps false false", false},
+	{"mok-expire", fixed(`{"group":"c14-group","action":"expire"}`), "MOps false false", false},
+	{"mok-grouped", fixed(`{"group":"c14-group","name":"c14_grouped","action":"set","value":1}`), "MOps false false", false},
+	{"mmark", mMark, "MOps true false", false},
+	{"mmark+ok", func(i int) string { return mMark(i) + "\n" + `{"name":"c14_gauge","set":5}` + "\n" }, "MOps true false", false},
+	// SendBatch validates the whole batch first
+	{"minv-noaction", fixed(`{"name":"c14_x","value":1}`), "MOps false true", true},
+	{"minv-badaction", fixed(`{"name":"c14_x","action":"increment","value":1}`), "MOps false true", true},
+	{"minv-noname", fixed(`{"add":1}`), "MOps false true", true},
+	{"minv-novalue", fixed(`{"name":"c14_x","action":"set"}`), "MOps false true", true},
+	{"minv-observe-nobuckets", fixed(`{"name":"c14_h","action":"observe","value":1}`), "MOps false true", true},
+	{"minv-setandadd", fixed(`{"name":"c14_x","set":1,"add":2}`), "MOps false true", true},
+	{"minv-emptyobj", fixed(`{}`), "MOps false true", true},
+	{"mmark+invalid", func(i int) string { return mMark(i) + "\n" + `{"name":"c14_x"}` + "\n" }, "MOps true true", true},
+	{"minv+mark", func(i int) string { return `{"name":"c14_x","action":"expire"}` + "\n" + mMark(i) + "\n" }, "MOps true true", true},
+	// MetricOperationsFromFile fails inside Hook.Run
+	{"mbad-text", fixed("c14_gauge 3\n"), "MUnparsable", true},
+	{"mbad-truncated", fixed(`{"name":"c14_gauge","set":`), "MUnparsable", true},
+	{"mbad-array", fixed(`[{"name":"c14_gauge","set":3}]`), "MUnparsable", true},
+	{"mbad-type", fixed(`{"name":"c14_gauge","set":"three"}`), "MUnparsable", true},
+	{"mbad-mark+garbage", func(i int) string { return mMark(i) + " and then garbage" }, "MUnparsable", true},
+}
+
+var cVariants = []sideVariant{
+	{"cok-empty-list", fixed(`{"convertedObjects":[]}`), "COk", false},
+	{"cok-failed-message", fixed(`{"failedMessage":"not a conversion"}`), "COk", false},
+	{"cbad-text", fixed("converted: none\n"), "CMalformed", true},
+	{"cbad-type", fixed(`{"failedMessage":5}`), "CMalformed", true},
+	{"cbad-truncated", fixed(`{"convertedObjects":[`), "CMalformed", true},
+	{"cbad-array", fixed(`[]`), "CMalformed", true},
+}
+
+func findVariant(vs []sideVariant, name string) *sideVariant {
+	for k := range vs {
+		if vs[k].Name == name {
+			return &vs[k]
+		}
+	}
+	return nil
+}
+
+// text and abstract content of the three side files of request i
+func sideFiles(q Req, i int) (k, m, c string, coq string, bad bool, unknown string) {
+	kc, mc, cc := "KEmpty", "MEmpty", "CEmpty"
+	pick := func(vs []sideVariant, name string, text *string, abs *string) {
+		if name == "" {
+			return
+		}
+		v := findVariant(vs, name)
+		if v == nil {
+			unknown = name
+			return
+		}
+		*text, *abs = v.Text(i), "("+v.Coq+")"
+		bad = bad || v.Bad
+	}
+	pick(kVariants, q.KPatch, &k, &kc)
+	pick(mVariants, q.Metrics, &m, &mc)
+	pick(cVariants, q.Conv, &c, &cc)
+	return k, m, c, mc + " " + cc + " " + kc, bad, unknown
 }
 
 var noRequestBodies = []string{
@@ -349,12 +491,32 @@ func Run(in Input) (o Obs) {
 	caFile := filepath.Join(root, "ca.pem")
 	_ = os.WriteFile(caFile, []byte("not a real CA: the bundle is only copied into the webhook configuration\n"), 0o644)
 
+	// the cluster the hooks' Kubernetes operations go to: namespace default with one ConfigMap
+	cluster := fake.NewFakeCluster(fake.ClusterVersionV119)
+	cluster.CreateNs("default")
+	cmGVR, err := cluster.Client.GroupVersionResource("v1", "ConfigMap")
+	if err != nil {
+		o.Err = "fake cluster: " + err.Error()
+		return
+	}
+	cms := cluster.Client.Dynamic().Resource(cmGVR).Namespace("default")
+	if _, err := cms.Create(context.TODO(), &unstructured.Unstructured{Object: map[string]any{
+		"apiVersion": "v1", "kind": "ConfigMap", "metadata": map[string]any{"name": presentCM, "namespace": "default"}, "data": map[string]any{"a": "b"},
+	}}, metav1.CreateOptions{}); err != nil {
+		o.Err = "fake cluster: " + err.Error()
+		return
+	}
+	kubeeventsmanager.DefaultFactoryStore.Reset()
+
 	ctx, cancel := context.WithCancel(context.Background())
 	defer cancel()
 	op := shell_operator.NewShellOperator(ctx, shell_operator.WithLogger(log.NewNop()))
 	defer op.Stop()
 	op.MetricStorage = metricstorage.NewMetricStorage(ctx, "verif_", true, log.NewNop())
-	op.HookMetricStorage = metricstorage.NewMetricStorage(ctx, "verif_hook_", true, log.NewNop())
+	hookMetrics := metricstorage.NewMetricStorage(ctx, "verif_hook_", true, log.NewNop())
+	op.HookMetricStorage = hookMetrics
+	op.KubeClient = cluster.Client
+	op.ObjectPatcher = objectpatch.NewObjectPatcher(cluster.Client, log.NewNop())
 	op.SetupEventManagers()
 	op.AdmissionWebhookManager = admission.NewWebhookManager(nil)
 	op.AdmissionWebhookManager.Settings = &admission.WebhookSettings{CAPath: caFile, ConfigurationName: "verif-c14"}
@@ -400,7 +562,7 @@ func Run(in Input) (o Obs) {
 		}
 	}
 
-	for _, q := range in.Reqs {
+	for qi, q := range in.Reqs {
 		var ro ReqObs
 		base := Reg{Path: "/hooks/none", Name: "none"}
 		if len(o.Regs) > 0 {
@@ -429,11 +591,21 @@ func Run(in Input) (o Obs) {
 		default: // rawname: the binding name as written (not made URL safe)
 			ro.Path = "/hooks/" + base.Name
 		}
-		for _, f := range []string{"ctx", "who", "resp", "exit"} {
+		for _, f := range []string{"ctx", "who", "resp", "exit", "kpatch", "metrics", "conv"} {
 			_ = os.Remove(filepath.Join(state, f))
 		}
 		if fb := fileBytes(q); fb != "" {
 			_ = os.WriteFile(filepath.Join(state, "resp"), []byte(fb), 0o644)
+		}
+		kText, mText, cText, _, _, unknown := sideFiles(q, qi)
+		if unknown != "" {
+			o.Err = "unknown side file variant " + unknown
+			return
+		}
+		for name, text := range map[string]string{"kpatch": kText, "metrics": mText, "conv": cText} {
+			if text != "" {
+				_ = os.WriteFile(filepath.Join(state, name), []byte(text), 0o644)
+			}
 		}
 		_ = os.WriteFile(filepath.Join(state, "exit"), []byte(strconv.Itoa(q.Exit)+"\n"), 0o644)
 
@@ -513,6 +685,19 @@ func Run(in Input) (o Obs) {
 			}
 			ro.Ran = ran
 		}
+		// side effects: this request's marker object in the cluster, marker metric in the storage
+		if _, err := cms.Get(context.TODO(), markerCM(qi), metav1.GetOptions{}); err == nil {
+			ro.KApplied = true
+		}
+		if fams, err := hookMetrics.Gatherer.Gather(); err != nil {
+			ro.Note += " cannot gather the hooks' metrics: " + err.Error()
+		} else {
+			for _, f := range fams {
+				if f.GetName() == markerMetric(qi) || strings.HasSuffix(f.GetName(), "_"+markerMetric(qi)) {
+					ro.MApplied = true
+				}
+			}
+		}
 		o.Reqs = append(o.Reqs, ro)
 	}
 	if left, _ := os.ReadDir(tmp); len(left) > 0 {
@@ -585,11 +770,12 @@ func Render(in Input, obs *Obs, crash string) core.Case {
 	for _, r := range obs.Regs {
 		readable = append(readable, fmt.Sprintf("h%02d %v %q registered %s", r.Hook, map[bool]string{false: "validating", true: "mutating"}[r.Mut], r.Name, r.Path))
 	}
-	allowedSeen, ranSeen := false, false
+	allowedSeen, ranSeen, postExitFailAfterAllow := false, false, false
 	for i, q := range in.Reqs {
 		ro := obs.Reqs[i]
-		reqs[i] = fmt.Sprintf("(%s, %s, mkRun %s (%s), (%s, %s))", core.CoqBytes(ro.Path), coqBody(q),
-			core.CoqBool(q.Exit == 0), coqFile(q), coqAnswer(ro), coqRan(ro.Ran))
+		_, _, _, sideCoq, sideBad, _ := sideFiles(q, i)
+		reqs[i] = fmt.Sprintf("(%s, %s, mkRun %s (%s) %s, (%s, %s), (%s, %s))", core.CoqBytes(ro.Path), coqBody(q),
+			core.CoqBool(q.Exit == 0), coqFile(q), sideCoq, coqAnswer(ro), coqRan(ro.Ran), core.CoqBool(ro.KApplied), core.CoqBool(ro.MApplied))
 		ans := fmt.Sprintf("HTTP %d", ro.Status)
 		if ro.Review != nil {
 			ans = fmt.Sprintf("allowed=%v code=%d msg=%s(%q) warnings=%v patch=%d patchType=%v uid=%d", ro.Review.Allowed, ro.Review.Code, ro.Review.Msg, ro.Review.Raw, ro.Review.Warn, ro.Review.Patch, ro.Review.PatchType, ro.Review.Uid)
@@ -607,12 +793,66 @@ func Render(in Input, obs *Obs, crash string) core.Case {
 			ranSeen = true
 			ran = fmt.Sprintf("h%02d ran for %q mutating=%v", ro.Ran.Hook, ro.Ran.Name, ro.Ran.Mut)
 		}
-		readable = append(readable, fmt.Sprintf("POST %s body=%s uid=%d; hook: exit %d file %s %q => %s; %s %s", ro.Path, q.Body, q.Uid, q.Exit, q.File, fileBytes(q), ans, ran, ro.Note))
+		side := ""
+		if q.KPatch != "" || q.Metrics != "" || q.Conv != "" {
+			kText, mText, cText, _, _, _ := sideFiles(q, i)
+			side = fmt.Sprintf(" kubernetes-patch %s %q metrics %s %q conversion-response %s %q", q.KPatch, kText, q.Metrics, mText, q.Conv, cText)
+		}
+		readable = append(readable, fmt.Sprintf("POST %s body=%s uid=%d; hook: exit %d file %s %q%s => %s; %s; marker object applied=%v marker metric applied=%v %s",
+			ro.Path, q.Body, q.Uid, q.Exit, q.File, fileBytes(q), side, ans, ran, ro.KApplied, ro.MApplied, ro.Note))
 		bk := q.Body
 		if i := strings.IndexByte(bk, ':'); i >= 0 {
 			bk = bk[:i]
 		}
 		c.Tags = append(c.Tags, "path:"+q.PathKind, "body:"+bk, "file:"+q.File, fmt.Sprintf("exit:%d", q.Exit))
+		// the files processed after the exit of the hook process, by abstract class
+		coqOf := func(vs []sideVariant, name, empty string) string {
+			if v := findVariant(vs, name); v != nil {
+				return v.Coq
+			}
+			return empty
+		}
+		c.Tags = append(c.Tags, "kpatch:"+coqOf(kVariants, q.KPatch, "KEmpty"), "metrics:"+coqOf(mVariants, q.Metrics, "MEmpty"), "conv:"+coqOf(cVariants, q.Conv, "CEmpty"))
+		verdict := "other"
+		switch coqFile(q) {
+		case "FEmpty":
+			verdict = "empty"
+		case "FMalformed":
+			verdict = "malformed"
+		default:
+			if strings.HasPrefix(coqFile(q), "FResp true") {
+				verdict = "allow"
+			} else {
+				verdict = "deny"
+			}
+			if strings.HasSuffix(coqFile(q), "true") {
+				verdict += "+trailing"
+			}
+		}
+		switch {
+		case q.KPatch == "" && q.Metrics == "" && q.Conv == "":
+			c.Tags = append(c.Tags, "post-exit:no-side-files")
+		case ro.Ran == nil:
+			c.Tags = append(c.Tags, "post-exit:side-files-but-no-hook-ran")
+		case q.Exit != 0:
+			c.Tags = append(c.Tags, "post-exit:side-files-after-nonzero-exit")
+		case sideBad:
+			c.Tags = append(c.Tags, "post-exit:step-fails-after-exit0/response-"+verdict)
+			if verdict == "allow" {
+				postExitFailAfterAllow = true
+			}
+		default:
+			c.Tags = append(c.Tags, "post-exit:all-steps-ok/response-"+verdict)
+		}
+		if ro.KApplied {
+			c.Tags = append(c.Tags, "effect:kubernetes-operation-applied")
+		}
+		if ro.MApplied {
+			c.Tags = append(c.Tags, "effect:metric-applied")
+		}
+	}
+	if postExitFailAfterAllow {
+		c.Tags = append(c.Tags, "case-has:allow-written-then-post-exit-failure")
 	}
 	c.Coq = fmt.Sprintf("Case %s\n  %s\n  [%s]", hooks, core.CoqList(obs.Regs, coqReg), strings.Join(reqs, ";\n   "))
 	c.JSON = map[string]any{"obs": obs, "readable": readable}
@@ -704,6 +944,10 @@ func (g *gen) req(nb int, uid int) Req {
 	default:
 		q.File = fileKinds[g.r.Intn(len(fileKinds))]
 	}
+	// the files processed after the exit of the hook process: a third of the requests carry some
+	if g.r.Chance(33) {
+		g.side(&q, g.r.Chance(50))
+	}
 	switch k := g.r.Intn(100); {
 	case k < 6:
 		q.Body = fmt.Sprintf("norequest:%d", g.r.Intn(len(noRequestBodies)))
@@ -713,6 +957,48 @@ func (g *gen) req(nb int, uid int) Req {
 		q.Body = "wrongct"
 	}
 	return q
+}
+
+func pickVariant(r *core.Rng, vs []sideVariant, bad bool) string {
+	var names []string
+	for _, v := range vs {
+		if v.Bad == bad {
+			names = append(names, v.Name)
+		}
+	}
+	return names[r.Intn(len(names))]
+}
+
+// side fills the Kubernetes-operations / metrics / conversion-response files of a request.
+// mustFail: at least one of them is one whose processing fails the run.
+func (g *gen) side(q *Req, mustFail bool) {
+	q.KPatch, q.Metrics, q.Conv = "", "", ""
+	if g.r.Chance(60) {
+		q.KPatch = pickVariant(g.r, kVariants, false)
+	}
+	if g.r.Chance(50) {
+		q.Metrics = pickVariant(g.r, mVariants, false)
+	}
+	if g.r.Chance(15) {
+		q.Conv = pickVariant(g.r, cVariants, false)
+	}
+	if !mustFail {
+		if q.KPatch == "" && q.Metrics == "" && q.Conv == "" {
+			q.KPatch = pickVariant(g.r, kVariants, false)
+		}
+		return
+	}
+	switch k := g.r.Intn(100); {
+	case k < 50:
+		q.KPatch = pickVariant(g.r, kVariants, true)
+	case k < 85:
+		q.Metrics = pickVariant(g.r, mVariants, true)
+	default:
+		q.Conv = pickVariant(g.r, cVariants, true)
+	}
+	if g.r.Chance(15) { // a second failing step
+		q.Metrics = pickVariant(g.r, mVariants, true)
+	}
 }
 
 func nBindings(hs []HookSpec) int {
@@ -753,6 +1039,91 @@ func TrailingCorpus() []Input {
 			{PathKind: "reg", Binding: 0, Body: "review", Uid: 4, File: "allowtrail4", Patch: 2},
 			{PathKind: "reg", Binding: 0, Body: "review", Uid: 5, File: "allowws", Warn: []int{3}}}},
 	}
+}
+
+// PostExitCorpus: a hook that exits 0 and writes a valid response, while a step of the same
+// HookRun task that follows the exit of the process fails (or does not): Kubernetes operations
+// that cannot be parsed / are rejected by the API server, metrics that cannot be parsed / are
+// invalid, an undecodable conversion response.
+func PostExitCorpus() []Input {
+	one := []HookSpec{{Val: []string{"policy.example.com"}}}
+	two := []HookSpec{{Val: []string{"policy.example.com"}}, {Mut: []string{"Mutate.Pods.example.com"}}}
+	return []Input{
+		// one validating hook; the plainest failing run comes last (what a shrunk witness keeps)
+		{Hooks: one, Reqs: []Req{
+			{PathKind: "reg", Binding: 0, Body: "review", Uid: 1, File: "allow", KPatch: "kmark", Metrics: "mmark"},
+			{PathKind: "reg", Binding: 0, Body: "review", Uid: 2, File: "allow", KPatch: "kmark", Metrics: "minv-noaction"},
+			{PathKind: "reg", Binding: 0, Body: "review", Uid: 3, File: "allow", Metrics: "mbad-text"},
+			{PathKind: "reg", Binding: 0, Body: "review", Uid: 4, File: "allow", Conv: "cbad-type", KPatch: "kmark"},
+			{PathKind: "reg", Binding: 0, Body: "review", Uid: 5, File: "allow", KPatch: "kbad-garbage", Metrics: "mmark"},
+			{PathKind: "reg", Binding: 0, Body: "review", Uid: 6, File: "allow", KPatch: "krej-merge-missing-yaml"},
+		}},
+		{Hooks: two, Reqs: []Req{
+			{PathKind: "reg", Binding: 1, Body: "review", Uid: 7, File: "allow", Patch: 3, Warn: []int{4}, KPatch: "kmark+rej", Metrics: "mmark"},
+			{PathKind: "reg", Binding: 1, Body: "review", Uid: 8, File: "allow", Patch: 3, KPatch: "kmark+merge", Metrics: "mmark+ok", Conv: "cok-empty-list"},
+			{PathKind: "reg", Binding: 1, Body: "review", Uid: 9, File: "deny", Msg: 2, KPatch: "krej-create-exists"},
+			{PathKind: "reg", Binding: 1, Body: "review", Uid: 10, File: "deny", Msg: 2, KPatch: "kmark", Metrics: "mmark"},
+			{PathKind: "reg", Binding: 0, Body: "review", Uid: 11, File: "empty", KPatch: "krej-merge-missing"},
+			{PathKind: "reg", Binding: 0, Body: "review", Uid: 12, File: "allow", Exit: 1, KPatch: "kmark", Metrics: "mmark"},
+			{PathKind: "unknownid", Body: "review", Uid: 13, File: "allow", KPatch: "kmark", Metrics: "mmark"},
+			{PathKind: "reg", Binding: 0, Body: "review", Uid: 14, File: "allow", Metrics: "minv-badaction"},
+		}},
+	}
+}
+
+// every variant of every side file alone, and the combinations that show the order of the steps,
+// on a validating and a mutating binding x exit {0,1} x response {allow, allow+patch+warnings, deny, empty, malformed}
+func exhaustivePostExit() []Input {
+	hooks := []HookSpec{{Val: []string{"policy.example.com"}}, {Mut: []string{"Mutate.Pods.example.com"}}}
+	type combo struct{ k, m, c string }
+	var combos []combo
+	for _, v := range kVariants {
+		combos = append(combos, combo{k: v.Name})
+	}
+	for _, v := range mVariants {
+		combos = append(combos, combo{m: v.Name})
+	}
+	for _, v := range cVariants {
+		combos = append(combos, combo{c: v.Name})
+	}
+	combos = append(combos,
+		combo{k: "kmark", m: "mmark"}, combo{k: "kmark", m: "mmark", c: "cok-empty-list"},
+		combo{k: "kmark", m: "mmark+invalid"}, combo{k: "kmark", m: "minv-badaction"}, combo{k: "kmark", m: "mbad-truncated"},
+		combo{k: "krej-merge-missing", m: "mmark"}, combo{k: "kmark+rej", m: "mmark"}, combo{k: "krej+mark", m: "minv-noname"},
+		combo{k: "kbad-unknown-op", m: "mmark"}, combo{k: "kbad-mark+invalid", m: "mmark+invalid"},
+		combo{k: "kmark", m: "mmark", c: "cbad-text"}, combo{k: "krej-create-exists", m: "minv-setandadd", c: "cbad-array"})
+	type fk struct {
+		file       string
+		msg, patch int
+		warn       []int
+		exit       int
+	}
+	files := []fk{{file: "allow"}, {file: "allow", msg: 2, warn: []int{7}, patch: 6}, {file: "deny", msg: 3}, {file: "empty"}, {file: "truncated"},
+		{file: "allowtrail"}, {file: "allow", exit: 1}, {file: "deny", exit: 1}}
+	var ins []Input
+	uid := 0
+	const perCase = 12 // small cases: a failing one shrinks quickly
+	for b := 0; b < 2; b++ {
+		for fi, f := range files {
+			if b == 1 && fi != 1 && fi != 2 {
+				continue // the mutating binding: the verdict with patch and warnings, and a denial
+			}
+			var reqs []Req
+			for _, c := range combos {
+				uid++
+				reqs = append(reqs, Req{PathKind: "reg", Binding: b, Body: "review", Uid: uid, Exit: f.exit, File: f.file, Msg: f.msg, Warn: f.warn, Patch: f.patch,
+					KPatch: c.k, Metrics: c.m, Conv: c.c})
+				if len(reqs) == perCase {
+					ins = append(ins, Input{Hooks: hooks, Reqs: reqs})
+					reqs = nil
+				}
+			}
+			if len(reqs) > 0 {
+				ins = append(ins, Input{Hooks: hooks, Reqs: reqs})
+			}
+		}
+	}
+	return ins
 }
 
 // the exhaustive product asked for by the design: paths x exit x response file (+ bodies)
@@ -808,9 +1179,15 @@ func Gen(r *core.Rng, tier string) ([]core.In[Input], bool) {
 	for _, c := range TrailingCorpus() {
 		ins = append(ins, core.In[Input]{Input: c, Stream: "corpus"})
 	}
+	for _, c := range PostExitCorpus() {
+		ins = append(ins, core.In[Input]{Input: c, Stream: "corpus"})
+	}
 	// the product paths x exit x file is small: it runs in every tier
 	for _, c := range exhaustive() {
 		ins = append(ins, core.In[Input]{Input: c, Stream: "exhaustive"})
+	}
+	for _, c := range exhaustivePostExit() {
+		ins = append(ins, core.In[Input]{Input: c, Stream: "exhaustive-post-exit"})
 	}
 	g := &gen{r: r}
 	n := 120
@@ -839,6 +1216,17 @@ func Gen(r *core.Rng, tier string) ([]core.In[Input], bool) {
 			q.File = trailingFiles[g.r.Intn(len(trailingFiles))]
 			reqs = append(reqs, q)
 		}
+		if i%4 == 1 {
+			// a valid verdict from a hook that exits 0, and a step after the exit that fails
+			stream = "post-exit-failure"
+			for k := 1 + g.r.Intn(2); k > 0; k-- {
+				q := g.req(nb, len(reqs)+1)
+				q.PathKind, q.Body, q.Exit = "reg", "review", 0
+				q.File = []string{"allow", "allow", "allow", "deny"}[g.r.Intn(4)]
+				g.side(&q, true)
+				reqs = append(reqs, q)
+			}
+		}
 		ins = append(ins, core.In[Input]{Input: Input{Hooks: hs, Reqs: reqs}, Stream: stream})
 	}
 	return ins, false
@@ -846,6 +1234,6 @@ func Gen(r *core.Rng, tier string) ([]core.In[Input], bool) {
 
 var Driver = core.Driver[Input, Obs]{
 	Spec: core.Spec{Property: "C14", Imports: []string{"C14_Model", "C14_Spec", "C14_Corr"}, Corr: "C14_Corr", Triggers: nil, ShrinkKey: "reqs",
-		Rule: "one case = 1-3 real hooks (bash stubs) with kubernetesValidating/kubernetesMutating bindings loaded by the real hook.Manager, the real initValidatingWebhookManager event handler on the real admission router (httptest, no listener), and a list of AdmissionReview posts, each with a scripted hook exit status and response file; observed: registered path of every binding, HTTP status / AdmissionResponse (uid, allowed, code, message, warnings, patch, patchType), which hook process ran for which binding. Streams: corpus; exhaustive (every tier): 12 path kinds {registered validating, registered mutating, unknown webhook id, unknown configuration id, empty, extra segment, doubled slashes, trailing slash, configuration only, id only, un-normalised name} x exit {0,1} x 28 response files {empty, allow, deny(+message), allow+warnings, allow+patch, all fields, truncated x2, wrong types x6, non-JSON x2, null, {}, unknown members, empty patch, object followed by other data x5, object followed by white space} + every request-less / malformed body / wrong content type; random (distinct webhook ids); colliding-ids (binding names with equal SafeURLString); trailing-data (a complete response object followed by other data — the repaired defect F19). non-trivial = at least 2 requests, one answered allowed and one hook run. distinct = distinct input text"},
-	Gen: Gen, Run: Run, Render: Render, PerShard: 200, Workers: 8, CaseTimout: 60 * time.Second,
+		Rule: "one case = 1-3 real hooks (bash stubs) with kubernetesValidating/kubernetesMutating bindings loaded by the real hook.Manager, the real initValidatingWebhookManager event handler on the real admission router (httptest, no listener), and a list of AdmissionReview posts, each with a scripted hook exit status, response file and the other files shell-operator processes after the exit of the hook process ($KUBERNETES_PATCH_PATH on a fake cluster, $METRICS_PATH, $CONVERSION_RESPONSE_PATH: empty / processed without error / failing the run at parse time / failing it when applied); observed: marker Kubernetes object applied, marker metric applied, registered path of every binding, HTTP status / AdmissionResponse (uid, allowed, code, message, warnings, patch, patchType), which hook process ran for which binding. Streams: corpus; exhaustive (every tier): 12 path kinds {registered validating, registered mutating, unknown webhook id, unknown configuration id, empty, extra segment, doubled slashes, trailing slash, configuration only, id only, un-normalised name} x exit {0,1} x 28 response files {empty, allow, deny(+message), allow+warnings, allow+patch, all fields, truncated x2, wrong types x6, non-JSON x2, null, {}, unknown members, empty patch, object followed by other data x5, object followed by white space} + every request-less / malformed body / wrong content type; random (distinct webhook ids); colliding-ids (binding names with equal SafeURLString); trailing-data (a complete response object followed by other data — the repaired defect F19); exhaustive-post-exit (every tier): every variant of the three side files alone (19 Kubernetes-operation files, 20 metric files, 6 conversion responses) + 12 combinations showing the order of the steps x 8 (exit, response file) on a validating binding, x 2 (allow with patch and warnings, deny) on a mutating one; post-exit-failure (every 4th random case: exit 0 + valid verdict + a failing step after the exit); a third of all random requests carry side files. non-trivial = at least 2 requests, one answered allowed and one hook run. distinct = distinct input text"},
+	Gen: Gen, Run: Run, Render: Render, PerShard: 30, Workers: 8, CaseTimout: 60 * time.Second,
 }
